@@ -122,7 +122,7 @@ def sweep(run, tier):
     n = 0
     for spec in specs():
         ws = make(spec)
-        ex = values.Explorer(ws, 2, "value")
+        ex = values.Explorer(ws, 2, "value", 32767)
         seen = set()
         for cost, w, edits in ex:
             h = hash(values.freeze(w))
